@@ -384,6 +384,37 @@ class Interp:
                     break
             else:
                 self.exec_block(s.orelse, env)
+        elif isinstance(s, ast.With):
+            if len(s.items) != 1:
+                self.bad(s, 'with statement with several items')
+            item = s.items[0]
+            cm = self.eval(item.context_expr, env)
+            if isinstance(cm, AGen):
+                # a generator-based context manager (contextlib.contextmanager): run to the yield, bind, run the body, resume for the clean-up
+                fn = cm.node
+                guarded = any(isinstance(t, ast.Try) and t.handlers and any(isinstance(y, ast.Yield) for b in t.body for y in ast.walk(b)) for t in ast.walk(fn))
+                ok, val = cm.next()
+                if not ok:
+                    raise RaiseSig('RuntimeError', ("generator didn't yield",), s)
+                if item.optional_vars is not None:
+                    self.assign(item.optional_vars, val, env)
+                try:
+                    self.exec_block(s.body, env)
+                except (RaiseSig,) as sig:
+                    if guarded:
+                        raise Unrecognised(self.rule, 'an exception leaves a with block whose context manager handles exceptions', self.mod.rel)
+                    cm.next()
+                    raise
+                except (ReturnSig, BreakSig, ContinueSig):
+                    cm.next()
+                    raise
+                cm.next()
+            elif isinstance(cm, (Sym, AObj)):
+                if item.optional_vars is not None:
+                    self.assign(item.optional_vars, cm, env)
+                self.exec_block(s.body, env)
+            else:
+                self.bad(s, 'with statement over a value that is not a context manager model')
         elif isinstance(s, ast.While):
             n = 0
             while self.truth(self.eval(s.test, env), s.test):
@@ -769,6 +800,8 @@ class Interp:
             self.bad(e, f'subscript of {type(base).__name__}')
         if isinstance(e, ast.Attribute):
             base = self.eval(e.value, env)
+            if isinstance(base, tuple) and base and base[0] in ('module', 'hostattr') and f'{base[1]}.{e.attr}' in ('os.sep', 'os.path.sep'):
+                return '/'
             if isinstance(base, tuple) and base and base[0] == 'module':
                 return ('hostattr', f'{base[1]}.{e.attr}')
             if isinstance(base, tuple) and base and base[0] == 'hostattr':
@@ -949,7 +982,8 @@ class Interp:
         if isinstance(f, ast.Attribute):
             base = self.eval(f.value, env)
             args = self.eval_args(e, env)
-            if e.keywords and not (isinstance(base, tuple) and base and base[0] in ('module', 'hostattr')) and not (isinstance(base, AList) and f.attr == 'sort'):
+            if e.keywords and not (isinstance(base, tuple) and base and base[0] in ('module', 'hostattr')) and not (isinstance(base, AList) and f.attr == 'sort') \
+                    and not isinstance(base, Sym):
                 self.bad(e, 'keyword arguments in a method call')
             self._kwargs = {}
             for kw in e.keywords:
@@ -1124,6 +1158,8 @@ class Interp:
         if name in ('pathlib.Path', 'pathlib.PurePosixPath', 'pathlib.PurePath') and len(args) == 1 and isinstance(args[0], str):
             import pathlib as _pl
             return Sym('hostpath', str(_pl.PurePosixPath(args[0])))
+        if name == 'importlib.resources.files' and len(args) == 1 and isinstance(args[0], str):
+            return Sym('pkgdir', args[0])
         if name == 'urllib.parse.urljoin' and len(args) == 2 and all(isinstance(a, str) for a in args):
             import urllib.parse as _up
             return _up.urljoin(*args)
@@ -1512,7 +1548,11 @@ class Interp:
                 return base
             if m in ('startswith', 'endswith'):
                 raise Unrecognised(self.rule, f'text predicate .{m}() on an abstract line', self.mod.rel)
-            return Sym('method', base, m)
+            kw = getattr(self, '_kwargs', None) or {}
+            self._kwargs = {}
+            if kw:
+                return Sym('method', base, m, *args, tuple(sorted(kw.items(), key=lambda kv: kv[0])))
+            return Sym('method', base, m, *args) if args else Sym('method', base, m)
         if isinstance(base, str):
             if m == 'join':
                 items = self.iterate(args[0], e)
